@@ -70,6 +70,9 @@ def run(tier, seed, replay=None):
                 raise ModelError("vacuous: no %s record" % need)
         if not chk.cov["passes"]["conforming_input"]:
             raise ModelError("vacuous: no pass on a conforming mesh")
+        chk.cov["swaps_asked_for_and_refused"] = sum(1 for r in rows if r["op"] == "swap" and r["pre"]["tri"] == r["post"]["tri"])
+        if not chk.cov["swaps_asked_for_and_refused"]:
+            raise ModelError("vacuous: no swap that the quality rule asked for and swap_edge refused")
     chk.cov["traces_validated_against_impl"] = n
     chk.cov["evaluations"] = n
     chk.cov["distinct_nontrivial"] = len({json.dumps([r["op"], r["a"], r["b"], r["pre"]["tri"]]) for r in rows if r["op"] in ("split", "merge", "swap", "pass")})
